@@ -65,6 +65,7 @@ Record db := {
   d_in : ikey -> infield;
   d_cell : cell -> val;                (* external untracked state *)
   d_pcell : cell -> val;               (* fault-injection switches (not salsa state) *)
+  d_evfault : option N;                (* event-callback fault: Some n = panic at the (n+1)-th event *)
   d_memo : qkey -> option memo;
   d_stack : list qkey;                 (* claimed (executing / verifying) queries *)
   d_lru : N -> lru_state;              (* per function family *)
@@ -74,16 +75,17 @@ Record db := {
 
 Definition cur (s : db) : rev := r_cur (d_revs s).
 
-Definition set_revs s x := {| d_revs := x; d_ccount := d_ccount s; d_in := d_in s; d_cell := d_cell s; d_pcell := d_pcell s; d_memo := d_memo s; d_stack := d_stack s; d_lru := d_lru s; d_log := d_log s; d_seen := d_seen s |}.
-Definition set_ccount s x := {| d_revs := d_revs s; d_ccount := x; d_in := d_in s; d_cell := d_cell s; d_pcell := d_pcell s; d_memo := d_memo s; d_stack := d_stack s; d_lru := d_lru s; d_log := d_log s; d_seen := d_seen s |}.
-Definition set_in s x := {| d_revs := d_revs s; d_ccount := d_ccount s; d_in := x; d_cell := d_cell s; d_pcell := d_pcell s; d_memo := d_memo s; d_stack := d_stack s; d_lru := d_lru s; d_log := d_log s; d_seen := d_seen s |}.
-Definition set_cell s x := {| d_revs := d_revs s; d_ccount := d_ccount s; d_in := d_in s; d_cell := x; d_pcell := d_pcell s; d_memo := d_memo s; d_stack := d_stack s; d_lru := d_lru s; d_log := d_log s; d_seen := d_seen s |}.
-Definition set_pcell s x := {| d_revs := d_revs s; d_ccount := d_ccount s; d_in := d_in s; d_cell := d_cell s; d_pcell := x; d_memo := d_memo s; d_stack := d_stack s; d_lru := d_lru s; d_log := d_log s; d_seen := d_seen s |}.
-Definition set_memo s x := {| d_revs := d_revs s; d_ccount := d_ccount s; d_in := d_in s; d_cell := d_cell s; d_pcell := d_pcell s; d_memo := x; d_stack := d_stack s; d_lru := d_lru s; d_log := d_log s; d_seen := d_seen s |}.
-Definition set_stack s x := {| d_revs := d_revs s; d_ccount := d_ccount s; d_in := d_in s; d_cell := d_cell s; d_pcell := d_pcell s; d_memo := d_memo s; d_stack := x; d_lru := d_lru s; d_log := d_log s; d_seen := d_seen s |}.
-Definition set_lru s x := {| d_revs := d_revs s; d_ccount := d_ccount s; d_in := d_in s; d_cell := d_cell s; d_pcell := d_pcell s; d_memo := d_memo s; d_stack := d_stack s; d_lru := x; d_log := d_log s; d_seen := d_seen s |}.
-Definition set_log s x := {| d_revs := d_revs s; d_ccount := d_ccount s; d_in := d_in s; d_cell := d_cell s; d_pcell := d_pcell s; d_memo := d_memo s; d_stack := d_stack s; d_lru := d_lru s; d_log := x; d_seen := d_seen s |}.
-Definition set_seen s x := {| d_revs := d_revs s; d_ccount := d_ccount s; d_in := d_in s; d_cell := d_cell s; d_pcell := d_pcell s; d_memo := d_memo s; d_stack := d_stack s; d_lru := d_lru s; d_log := d_log s; d_seen := x |}.
+Definition set_revs s x := {| d_revs := x; d_ccount := d_ccount s; d_in := d_in s; d_cell := d_cell s; d_pcell := d_pcell s; d_evfault := d_evfault s; d_memo := d_memo s; d_stack := d_stack s; d_lru := d_lru s; d_log := d_log s; d_seen := d_seen s |}.
+Definition set_ccount s x := {| d_revs := d_revs s; d_ccount := x; d_in := d_in s; d_cell := d_cell s; d_pcell := d_pcell s; d_evfault := d_evfault s; d_memo := d_memo s; d_stack := d_stack s; d_lru := d_lru s; d_log := d_log s; d_seen := d_seen s |}.
+Definition set_in s x := {| d_revs := d_revs s; d_ccount := d_ccount s; d_in := x; d_cell := d_cell s; d_pcell := d_pcell s; d_evfault := d_evfault s; d_memo := d_memo s; d_stack := d_stack s; d_lru := d_lru s; d_log := d_log s; d_seen := d_seen s |}.
+Definition set_cell s x := {| d_revs := d_revs s; d_ccount := d_ccount s; d_in := d_in s; d_cell := x; d_pcell := d_pcell s; d_evfault := d_evfault s; d_memo := d_memo s; d_stack := d_stack s; d_lru := d_lru s; d_log := d_log s; d_seen := d_seen s |}.
+Definition set_pcell s x := {| d_revs := d_revs s; d_ccount := d_ccount s; d_in := d_in s; d_cell := d_cell s; d_pcell := x; d_evfault := d_evfault s; d_memo := d_memo s; d_stack := d_stack s; d_lru := d_lru s; d_log := d_log s; d_seen := d_seen s |}.
+Definition set_evfault s x := {| d_revs := d_revs s; d_ccount := d_ccount s; d_in := d_in s; d_cell := d_cell s; d_pcell := d_pcell s; d_evfault := x; d_memo := d_memo s; d_stack := d_stack s; d_lru := d_lru s; d_log := d_log s; d_seen := d_seen s |}.
+Definition set_memo s x := {| d_revs := d_revs s; d_ccount := d_ccount s; d_in := d_in s; d_cell := d_cell s; d_pcell := d_pcell s; d_evfault := d_evfault s; d_memo := x; d_stack := d_stack s; d_lru := d_lru s; d_log := d_log s; d_seen := d_seen s |}.
+Definition set_stack s x := {| d_revs := d_revs s; d_ccount := d_ccount s; d_in := d_in s; d_cell := d_cell s; d_pcell := d_pcell s; d_evfault := d_evfault s; d_memo := d_memo s; d_stack := x; d_lru := d_lru s; d_log := d_log s; d_seen := d_seen s |}.
+Definition set_lru s x := {| d_revs := d_revs s; d_ccount := d_ccount s; d_in := d_in s; d_cell := d_cell s; d_pcell := d_pcell s; d_evfault := d_evfault s; d_memo := d_memo s; d_stack := d_stack s; d_lru := x; d_log := d_log s; d_seen := d_seen s |}.
+Definition set_log s x := {| d_revs := d_revs s; d_ccount := d_ccount s; d_in := d_in s; d_cell := d_cell s; d_pcell := d_pcell s; d_evfault := d_evfault s; d_memo := d_memo s; d_stack := d_stack s; d_lru := d_lru s; d_log := x; d_seen := d_seen s |}.
+Definition set_seen s x := {| d_revs := d_revs s; d_ccount := d_ccount s; d_in := d_in s; d_cell := d_cell s; d_pcell := d_pcell s; d_evfault := d_evfault s; d_memo := d_memo s; d_stack := d_stack s; d_lru := d_lru s; d_log := d_log s; d_seen := x |}.
 
 (* ---------------------------------------------------------------- monad *)
 Definition M (A : Type) := db -> db * res A.
@@ -101,7 +103,17 @@ Definition modify (f : db -> db) : M unit := fun s => (f s, Ok tt).
 Notation "x <- m ;; k" := (bind m (fun x => k)) (at level 61, m at next level, right associativity).
 Notation "m ;;; k" := (bind m (fun _ => k)) (at level 61, right associativity).
 
-Definition emit (e : event) : M unit := modify (fun s => set_log s (e :: d_log s)).
+(* Zalsa::event: the user's event callback runs here and may panic (fault injection: the
+   armed countdown fires once, at the (n+1)-th event) *)
+Definition emit (e : event) : M unit :=
+  fun s => match d_evfault s with
+           | Some 0 => (set_evfault s None, Panic PInjected)
+           | Some n => (set_log (set_evfault s (Some (n - 1))) (e :: d_log s), Ok tt)
+           | None => (set_log s (e :: d_log s), Ok tt)
+           end.
+
+(* fault switch for the user's PartialEq used by backdating *)
+Definition EQ_FAULT : cell := 6.
 
 (* ---------------------------------------------------------------- active query frame *)
 Record frame := { fr_dur : dur; fr_changed : rev; fr_edges : list edge; fr_untracked : bool }.
@@ -284,9 +296,13 @@ Definition execute (L : lower) (q : qkey) (old : option memo) : M memo :=
     | Some o =>
         match m_val o with
         | Some ov =>
-            if can_backdate_dur (fr_dur fr) (m_dur o) && negb (noeq q) && (ov =? v) then
-              if changed_after (m_changed o) (fr_changed fr) then Panic PBackdate
-              else Ok (m_changed o)
+            if can_backdate_dur (fr_dur fr) (m_dur o) && negb (noeq q) then
+              (* C::values_equal(old, new): user code, may panic *)
+              if negb (d_pcell s EQ_FAULT =? 0) then Panic PInjected
+              else if ov =? v then
+                if changed_after (m_changed o) (fr_changed fr) then Panic PBackdate
+                else Ok (m_changed o)
+              else Ok (fr_changed fr)
             else Ok (fr_changed fr)
         | None => Ok (fr_changed fr)
         end
@@ -403,6 +419,7 @@ Inductive op :=
 | OSynth (d : dur)                              (* synthetic_write(d) *)
 | OSetCell (c : cell) (v : val)                 (* external state changes (no salsa call) *)
 | OSetPanic (c : cell) (v : val)                (* fault-injection switch (no salsa call) *)
+| OSetEvFault (n : option N)                    (* arm / disarm the event-callback fault *)
 | OGet (q : qkey)                               (* call the tracked function from outside *)
 | OSetLru (fam : N) (n : N)                     (* set_lru_capacity *)
 | OEvict.                                       (* trigger_lru_eviction *)
@@ -445,6 +462,7 @@ Definition step (fuel : nat) (s : db) (o : op) : db * out :=
       else (set_revs s1 (report_write (d_revs s1) d), Ok 0)
   | OSetCell c v => (set_cell s (updN (d_cell s) c v), Ok 0)
   | OSetPanic c v => (set_pcell s (updN (d_pcell s) c v), Ok 0)
+  | OSetEvFault n => (set_evfault s n, Ok 0)
   | OGet q =>
       match fetch (level fuel) q s with
       | (s', Ok (v, _, _)) => (s', Ok v)
@@ -475,6 +493,7 @@ Definition init (iv : ikey -> val) (idur : ikey -> dur) (lru0 : N -> lru_state) 
      d_in := fun i => {| f_val := iv i; f_changed := REV_START; f_dur := idur i |};
      d_cell := fun _ => 0;
      d_pcell := fun _ => 0;
+     d_evfault := None;
      d_memo := fun _ => None;
      d_stack := [];
      d_lru := lru0;
